@@ -56,7 +56,7 @@ def cases(tier, seed):
                     continue
                 out.append(dict(kind="machine", start=st, ops=[list(o) for o in seq], cap=cap, thr=thr, sw=list(SWS[k % 4]), seed=seed))
     for pat in range(7):
-        for shape in ([1, 1], [2, 1], [2, 3], [3, 2], [12, 2]):
+        for shape in ([1, 1], [2, 1], [2, 3], [3, 2], [12, 2], [5, 1], [9, 2]):
             out.append(dict(kind="stats", pat=pat, shape=shape, seed=seed))
     for C in (1, 2, 5, 10, 11, 12, 23):
         for D in (1, 3):
@@ -300,7 +300,10 @@ def _stats_case(case, c, tmp):
     h = GMMStats.from_hdf5(f)
     f.close()
     compare(h, "open file")
-    for shape, dt in (((C, D), float), ((C + 1, D), float), ((1, D + 2), float), ((C, D), np.float32), ((C, D), np.int64)):
+    # every other shape (up to 24 x 8) holding the same number of values: same storage size, different layout
+    twins = [((c2, d2), float) for c2 in range(1, 25) for d2 in range(1, 9) if (c2, d2) != (C, D) and c2 * (1 + 2 * d2) == C * (1 + 2 * D)]
+    c.count("same_size_other_shape_targets", len(twins))
+    for shape, dt in [((C, D), float), ((C + 1, D), float), ((1, D + 2), float), ((C, D), np.float32), ((C, D), np.int64), ((D, C), float)] + twins:
         tgt = GMMStats(*shape)
         tgt.n = (tgt.n + 9.0).astype(dt)  # a container that previously held values of another precision / type
         tgt.sum_px = tgt.sum_px.astype(dt)
@@ -311,6 +314,11 @@ def _stats_case(case, c, tmp):
         f.close()
         c.transitions += 1
         compare(tgt, f"load() into {shape} statistics")
+        try:
+            pooled = tgt + g  # the loaded object is usable like the saved one
+            c.check(_eq(pooled.n, np.asarray(g.n, float) * 2), "stats_shape", f"load() into {shape} statistics, then pooled with the original", tags)
+        except Exception as e:  # noqa: BLE001
+            c.check(False, "stats_shape", f"load() into {shape} statistics: pooling with the original raises {e!r}", tags)
     # legacy layout
     pl = os.path.join(tmp, "slegacy.h5")
     with h5py.File(pl, "w") as f:
